@@ -1,7 +1,185 @@
-/- Driver entry for property C14: one request payload in, one canonical response line out. -/
+/-
+Driver for the ensemble model (C14).  payload:  <shipped|repaired> ; op ; op ; ...
+numbers: `nan` | integer | p/q          vectors: V<n> x*n        conformer: C<n> (x y z)*n
+charges: Q<n> x*n | Q-                  matrix: M<r> (V<n> ..)*r
+ops
+  ctorAtoms nA nC | ctorMol nA k | ctorMols m (C Q)*m | ctorCopy
+  append C Q | extendEns nA m (C V<nA> w)*m | extendSelf | extendGeoms m (C Q)*m
+  scale f allow | invert | translate V | translateEach m V*m | rotate M | rotateEach m M*m
+  setCoords m C*m | setWeights V | setCharges m V*m
+  writeCoords i C | writeCharges i V | writeAtom i a V | writeCharge i a x
+  read i | slice a b c ('-' = omitted) | dump i | serialise | iterNew | iterNext k | loop | nestedLoop
+response: per op  <out>@<nA>,<len coords>,<len charges>,<len weights>,<rect 0|1>  joined by ';', then
+  ';state ' + the three arrays
+outs: ok | err | view C.. V.. | idxs i,j,.. | handle k | yield i | stop | pairs i:j,.. | blob m (C V)*m V
+-/
 import Molli.Util.Basic
+import Molli.Model.Ensemble
 namespace Molli.Driver.C14
+open Molli.Util Molli.Model.Ensemble
 
-def handle (_payload : String) : String := "err:not-implemented"
+abbrev P (α : Type) := List String → Option (α × List String)
+
+def pNum : P Num
+  | t :: ts =>
+    if t == "nan" then some (none, ts) else
+    match t.splitOn "/" with
+    | [p] => p.toInt?.map (fun i => (some (i : Rat), ts))
+    | [p, q] => do
+        let a ← p.toInt?
+        let b ← q.toNat?
+        if b = 0 then none else pure (some (mkRat a b), ts)
+    | _ => none
+  | [] => none
+
+def pNat : P Nat
+  | t :: ts => t.toNat?.map (fun n => (n, ts))
+  | [] => none
+
+def pOptInt : P (Option Int)
+  | t :: ts => if t == "-" then some (none, ts) else t.toInt?.map (fun i => (some i, ts))
+  | [] => none
+
+def pRepeat {α : Type} (p : P α) : Nat → P (List α)
+  | 0, ts => some ([], ts)
+  | n + 1, ts => do
+      let (x, ts1) ← p ts
+      let (xs, ts2) ← pRepeat p n ts1
+      pure (x :: xs, ts2)
+
+def pCount (pre : Char) : P Nat
+  | t :: ts =>
+    match t.toList with
+    | c :: r => if c == pre then (String.ofList r).toNat?.map (fun n => (n, ts)) else none
+    | [] => none
+  | [] => none
+
+def pVec : P (List Num) := fun ts => do
+  let (n, ts1) ← pCount 'V' ts
+  pRepeat pNum n ts1
+
+def pRow : P Row := pRepeat pNum 3
+
+def pConf : P Conf := fun ts => do
+  let (n, ts1) ← pCount 'C' ts
+  pRepeat pRow n ts1
+
+def pCharges : P (Option (List Num))
+  | "Q-" :: ts => some (none, ts)
+  | ts => do
+      let (n, ts1) ← pCount 'Q' ts
+      let (xs, ts2) ← pRepeat pNum n ts1
+      pure (some xs, ts2)
+
+def pGeom : P Geom := fun ts => do
+  let (c, ts1) ← pConf ts
+  let (q, ts2) ← pCharges ts1
+  pure (⟨c, q⟩, ts2)
+
+def pMat : P Mat := fun ts => do
+  let (n, ts1) ← pCount 'M' ts
+  pRepeat pVec n ts1
+
+def pMany {α : Type} (p : P α) : P (List α) := fun ts => do
+  let (n, ts1) ← pNat ts
+  pRepeat p n ts1
+
+def pEns : P Ens := fun ts => do
+  let (nA, ts1) ← pNat ts
+  let (items, ts2) ← pMany (fun ts => do
+      let (c, t1) ← pConf ts
+      let (q, t2) ← pVec t1
+      let (w, t3) ← pNum t2
+      pure ((c, q, w), t3)) ts1
+  pure ({ nA := nA, coords := items.map (·.1), charges := items.map (·.2.1), weights := items.map (·.2.2) }, ts2)
+
+def pRat : P Rat := fun ts => do
+  let (x, ts1) ← pNum ts
+  match x with
+  | some r => pure (r, ts1)
+  | none => none
+
+def parseOp (s : String) : Option Op :=
+  match words s with
+  | "ctorAtoms" :: ts => do let (a, t1) ← pNat ts; let (b, t2) ← pNat t1; if t2.isEmpty then pure (.ctorAtoms a b) else none
+  | "ctorMol" :: ts => do let (a, t1) ← pNat ts; let (b, t2) ← pNat t1; if t2.isEmpty then pure (.ctorMol a b) else none
+  | "ctorMols" :: ts => do let (ms, t1) ← pMany pGeom ts; if t1.isEmpty then pure (.ctorMols ms) else none
+  | ["ctorCopy"] => some .ctorCopy
+  | "append" :: ts => do let (g, t1) ← pGeom ts; if t1.isEmpty then pure (.append g) else none
+  | "extendEns" :: ts => do let (e, t1) ← pEns ts; if t1.isEmpty then pure (.extendEns e) else none
+  | ["extendSelf"] => some .extendSelf
+  | "extendGeoms" :: ts => do let (gs, t1) ← pMany pGeom ts; if t1.isEmpty then pure (.extendGeoms gs) else none
+  | "scale" :: ts => do let (f, t1) ← pRat ts; let (a, t2) ← pNat t1; if t2.isEmpty then pure (.scale f (a != 0)) else none
+  | ["invert"] => some .invert
+  | "translate" :: ts => do let (x, t1) ← pVec ts; if t1.isEmpty then pure (.translate x) else none
+  | "translateEach" :: ts => do let (vs, t1) ← pMany pVec ts; if t1.isEmpty then pure (.translateEach vs) else none
+  | "rotate" :: ts => do let (m, t1) ← pMat ts; if t1.isEmpty then pure (.rotate m) else none
+  | "rotateEach" :: ts => do let (ms, t1) ← pMany pMat ts; if t1.isEmpty then pure (.rotateEach ms) else none
+  | "setCoords" :: ts => do let (cs, t1) ← pMany pConf ts; if t1.isEmpty then pure (.setCoords cs) else none
+  | "setWeights" :: ts => do let (x, t1) ← pVec ts; if t1.isEmpty then pure (.setWeights x) else none
+  | "setCharges" :: ts => do let (qs, t1) ← pMany pVec ts; if t1.isEmpty then pure (.setCharges qs) else none
+  | "writeCoords" :: ts => do let (i, t1) ← pNat ts; let (c, t2) ← pConf t1; if t2.isEmpty then pure (.writeCoords i c) else none
+  | "writeCharges" :: ts => do let (i, t1) ← pNat ts; let (q, t2) ← pVec t1; if t2.isEmpty then pure (.writeCharges i q) else none
+  | "writeAtom" :: ts => do
+      let (i, t1) ← pNat ts; let (a, t2) ← pNat t1; let (x, t3) ← pVec t2
+      if t3.isEmpty then pure (.writeAtom i a x) else none
+  | "writeCharge" :: ts => do
+      let (i, t1) ← pNat ts; let (a, t2) ← pNat t1; let (x, t3) ← pNum t2
+      if t3.isEmpty then pure (.writeCharge i a x) else none
+  | "read" :: ts => do let (i, t1) ← pNat ts; if t1.isEmpty then pure (.read i) else none
+  | "slice" :: ts => do
+      let (a, t1) ← pOptInt ts; let (b, t2) ← pOptInt t1; let (c, t3) ← pOptInt t2
+      if t3.isEmpty then pure (.slice a b c) else none
+  | "dump" :: ts => do let (i, t1) ← pNat ts; if t1.isEmpty then pure (.dump i) else none
+  | ["serialise"] => some .serialise
+  | ["iterNew"] => some .iterNew
+  | "iterNext" :: ts => do let (k, t1) ← pNat ts; if t1.isEmpty then pure (.iterNext k) else none
+  | ["loop"] => some .loop
+  | ["nestedLoop"] => some .nestedLoop
+  | _ => none
+
+/-! ### printing -/
+
+def showNum : Num → String
+  | none => "nan"
+  | some r => if r.den = 1 then toString r.num else toString r.num ++ "/" ++ toString r.den
+
+def showVec (xs : List Num) : String := " ".intercalate (("V" ++ toString xs.length) :: xs.map showNum)
+def showConf (c : Conf) : String :=
+  " ".intercalate (("C" ++ toString c.length) :: (c.map (fun r => " ".intercalate (r.map showNum))))
+def showView (w : View) : String := showConf w.coords ++ " " ++ showVec w.charges
+
+def showOut : Out → String
+  | .ok => "ok"
+  | .err => "err"
+  | .view w => "view " ++ showView w
+  | .idxs l => "idxs " ++ ",".intercalate (l.map toString)
+  | .handle k => "handle " ++ toString k
+  | .yielded (some i) => "yield " ++ toString i
+  | .yielded none => "stop"
+  | .pairs l => "pairs " ++ ",".intercalate (l.map (fun p => toString p.1 ++ ":" ++ toString p.2))
+  | .blob vs ws => "blob " ++ toString vs.length ++ " " ++ " ".intercalate (vs.map showView) ++ " " ++ showVec ws
+
+def showShape (e : Ens) : String :=
+  ",".intercalate [toString e.nA, toString e.coords.length, toString e.charges.length, toString e.weights.length,
+    if e.rect then "1" else "0"]
+
+def showState (e : Ens) : String :=
+  "state " ++ toString e.coords.length ++ " " ++ " ".intercalate (e.coords.map showConf) ++ " | " ++
+  toString e.charges.length ++ " " ++ " ".intercalate (e.charges.map showVec) ++ " | " ++ showVec e.weights
+
+def handle (payload : String) : String :=
+  match (payload.splitOn ";").filter (fun s => words s ≠ []) with
+  | [] => "err:bad-request"
+  | vs :: opsS =>
+    let v? : Option Variant := match words vs with
+      | ["shipped"] => some .shipped | ["repaired"] => some .repaired | _ => none
+    match v?, opsS.mapM parseOp with
+    | some v, some ops =>
+      let (w, outs) := ops.foldl (fun (acc : World × List String) o =>
+          let (w', out) := step v acc.1 o
+          (w', (showOut out ++ "@" ++ showShape w'.ens) :: acc.2)) (initWorld, [])
+      ";".intercalate (outs.reverse ++ [showState w.ens])
+    | _, _ => "err:bad-request"
 
 end Molli.Driver.C14
